@@ -40,6 +40,8 @@ type endpoint struct {
 	collapseUna uint32 // snd_una at that moment
 	collapseNxt uint32 // snd_nxt at that moment
 	fastSince   bool   // a later flush did a fast/early retransmit (fast recovery re-inflates cwnd)
+
+	resized bool // WndSize was called after traffic started: the occupancy bounds no longer apply (C04 okRun)
 }
 
 type world struct {
@@ -285,13 +287,16 @@ func (w *world) inspectWire(e *endpoint, d *kcp.VerifKCPDump, p []byte) {
 
 // checkInvariants: the state oracles of C04 and C18 on the real core after every op.
 func (w *world) checkInvariants(e *endpoint, d *kcp.VerifKCPDump, op string) {
-	if len(d.RcvQueue) > int(d.RcvWnd) {
+	if e.resized {
+		// a window shrunk under traffic may be smaller than what is already held (hypothesis okRun of the
+		// C04 bounds); what is advertised on the wire must stay truthful all the same (route)
+	} else if len(d.RcvQueue) > int(d.RcvWnd) {
 		w.viol("rcvq-over-window", fmt.Sprintf("%s after %s: %d in-order segments held, window %d", e.name, op, len(d.RcvQueue), d.RcvWnd))
 	}
-	if len(d.RcvBuf) > int(d.RcvWnd) {
+	if !e.resized && len(d.RcvBuf) > int(d.RcvWnd) {
 		w.viol("rcvbuf-over-window", fmt.Sprintf("%s after %s: %d out-of-order segments held, window %d", e.name, op, len(d.RcvBuf), d.RcvWnd))
 	}
-	if len(d.SndBuf) > int(d.SndWnd) {
+	if !e.resized && len(d.SndBuf) > int(d.SndWnd) {
 		w.viol("inflight-over-window", fmt.Sprintf("%s after %s: %d outstanding, send window %d", e.name, op, len(d.SndBuf), d.SndWnd))
 	}
 	if d.SndNxt-d.SndUna != uint32(len(d.SndBuf)) {
@@ -665,6 +670,13 @@ func (w *world) history(c cfg) {
 	w.now = w.pickOffset()
 	// settings before traffic
 	w.stream = g.Bool()
+	// one history in eight resizes the windows under traffic; stream mode only (a message that no longer
+	// fits the peer's shrunk window is DESIGN O1, not what this is after)
+	wndMid := !c.mtuMid && g.Chance(12)
+	if wndMid {
+		w.stream = true
+		w.o.Count("history:wndsize-under-traffic")
+	}
 	for _, e := range []*endpoint{w.a, w.b} {
 		e := e
 		if g.Chance(70) {
@@ -762,6 +774,11 @@ func (w *world) history(c cfg) {
 				m := []int{int(d.Mtu) + 100, int(d.Mtu) - 100, 50, 1400, 25, 5000, 1524, 1525}[g.Intn(8)]
 				w.mtuMid = true
 				w.simple(e, fmt.Sprintf("setmtu %d", m), func() string { return fmt.Sprintf("r=%d", e.k.SetMtu(m)) })
+			} else if wndMid && g.Chance(50) {
+				// WndSize under traffic (the "accept first, configure afterwards" pattern), shrinking included
+				sw, rw := wndChoices[g.Intn(len(wndChoices))], wndChoices[g.Intn(len(wndChoices))]
+				e.resized = true
+				w.simple(e, fmt.Sprintf("wndsize %d %d", sw, rw), func() string { e.k.WndSize(sw, rw); return "ok" })
 			} else {
 				w.advance()
 			}
